@@ -219,13 +219,78 @@ Proof.
     + rewrite IH. cbn [In]. tauto.
 Qed.
 
+(* the module list of any node keeps its members other than v through the ownership hook of v *)
+Lemma ml_add_hook_kids_In : forall w ir v p y, y <> v ->
+  (In y (kids (fst (ml_add_hook w ir v)) p) <-> In y (kids w p)).
+Proof.
+  intros w ir v p y Hy. unfold ml_add_hook.
+  assert (H1 : In y (kids (fst (match par w v with
+                         | Some old => match ml_remove w old v with Ok r => r | Err _ => (w, false) end
+                         | None => (w, true) end)) p) <-> In y (kids w p)).
+  { destruct (par w v) as [old|]; [|tauto].
+    unfold ml_remove. destruct (index_of v (kids w old)) as [i|] eqn:Ei; [|tauto].
+    pose proof (index_of_nth v _ i Ei) as En. unfold ml_del_at. rewrite En.
+    unfold ml_remove_hook, cache_remove. cbn [fst set_kids kids set_cache].
+    change (kids (set_par w v None)) with (kids w).
+    destruct (Z.eq_dec p old) as [->|Hne].
+    - rewrite upd_same. destruct (In_remove_at (kids w old) i v y En) as [I1 I2]. split; [exact I1|].
+      intros A. apply I2; assumption.
+    - rewrite upd_other by exact Hne. tauto. }
+  destruct (match par w v with
+            | Some old => match ml_remove w old v with Ok r => r | Err _ => (w, false) end
+            | None => (w, true) end) as [w1 ok]. cbn [fst] in *. exact H1.
+Qed.
+
+Lemma In_assign_slice_one : forall l k v y, In y (assign_slice l k k [v]) <-> y = v \/ In y l.
+Proof.
+  intros l k v y. unfold assign_slice. change (dedup [v]) with [v]. rewrite !in_app_iff, !filter_In. cbn [In].
+  rewrite <- (firstn_skipn k l) at 3. rewrite in_app_iff.
+  assert (E : forall x, negb (mem x [v]) = true <-> x <> v).
+  { intros x. unfold mem. cbn [existsb]. rewrite orb_false_r. destruct (Z.eqb_spec x v); cbn [negb]; split; congruence. }
+  rewrite !E. destruct (Z.eq_dec y v) as [->|Hne]; [tauto|].
+  assert (Hne' : v <> y) by congruence. tauto.
+Qed.
+
+Lemma fold_ok_nil : forall (f : world -> id -> world * bool) w, fold_ok f [] w = (w, true).
+Proof. reflexivity. Qed.
+
+Lemma filter_none : forall {X} (f : X -> bool) l, (forall x, In x l -> f x = false) -> filter f l = [].
+Proof.
+  intros X f l. induction l as [|a l IH]; intros H; [reflexivity|]. cbn [filter].
+  rewrite (H a (or_introl eq_refl)). apply IH. intros x Hx. apply H. right. exact Hx.
+Qed.
+
+(* insert is the slice assignment l[k:k] = [v]: nobody leaves, v enters unless it is a member already *)
 Lemma ml_insert_good : forall w ir i v, kindof w v <> KSym -> Good w (fst (ml_insert w ir i v)).
 Proof.
-  intros w ir i v Hv. unfold ml_insert. pose proof (ml_add_hook_good w ir v Hv) as H1.
-  destruct (ml_add_hook w ir v) as [w1 ok]. cbn [fst] in *.
-  eapply good_trans; [exact H1|]. apply good_set_kids. intros _ y Hy.
-  rewrite In_insert_at. split; [|tauto]. intros [->|A]; [|exact A].
-  rewrite (good_kind _ _ v H1) in Hy. contradiction.
+  intros w ir i v Hv. unfold ml_insert. cbv zeta.
+  set (k := clamp_insert i (length (kids w ir))). unfold ml_assign. cbv zeta.
+  rewrite (filter_none (fun x => negb (mem x (assign_slice (kids w ir) k k [v]))) (kids w ir)).
+  2:{ intros x Hx. apply negb_false_iff. apply mem_In. apply In_assign_slice_one. right. exact Hx. }
+  rewrite fold_ok_nil.
+  destruct (mem v (kids w ir)) eqn:Em.
+  - rewrite (filter_none (fun x => negb (mem x (kids w ir))) (assign_slice (kids w ir) k k [v])).
+    2:{ intros x Hx. apply negb_false_iff. apply mem_In. apply In_assign_slice_one in Hx.
+        destruct Hx as [->|Hx]; [apply mem_In; exact Em|exact Hx]. }
+    rewrite fold_ok_nil. cbn [fst]. apply good_set_kids. intros _ y Hy.
+    rewrite In_assign_slice_one. split; [|tauto]. intros [->|A]; [contradiction|exact A].
+  - pose proof (ml_add_hook_good w ir v Hv) as H1.
+    pose proof (fun p y => ml_add_hook_kids_In w ir v p y) as Hk.
+    assert (Hf : filter (fun x => negb (mem x (kids w ir))) (assign_slice (kids w ir) k k [v]) = [v]).
+    { unfold assign_slice. change (dedup [v]) with [v]. rewrite !filter_app.
+      rewrite (filter_none _ (filter _ (firstn k (kids w ir)))).
+      2:{ intros x Hx. apply filter_In in Hx. destruct Hx as [Hx _]. apply negb_false_iff, mem_In.
+          rewrite <- (firstn_skipn k (kids w ir)). apply in_or_app. left. exact Hx. }
+      rewrite (filter_none _ (filter _ (skipn k (kids w ir)))).
+      2:{ intros x Hx. apply filter_In in Hx. destruct Hx as [Hx _]. apply negb_false_iff, mem_In.
+          rewrite <- (firstn_skipn k (kids w ir)). apply in_or_app. right. exact Hx. }
+      cbn [filter app]. rewrite Em. reflexivity. }
+    rewrite Hf. unfold fold_ok. cbn [fold_left].
+    destruct (ml_add_hook w ir v) as [w1 ok]. cbn [fst andb] in *.
+    eapply good_trans; [exact H1|]. apply good_set_kids. intros _ y Hy.
+    rewrite (good_kind _ _ y H1) in Hy. rewrite In_assign_slice_one.
+    assert (Hne : y <> v) by (intros ->; contradiction).
+    rewrite (Hk ir y Hne). split; [|tauto]. intros [A|A]; [contradiction|exact A].
 Qed.
 
 Lemma ml_append_good : forall w ir v, kindof w v <> KSym -> Good w (fst (ml_append w ir v)).
